@@ -153,7 +153,7 @@ pub fn run(tier: Tier, seed: u64) -> i32 {
     let mut s = Session::new("C20", tier, seed, "exploration", rule);
     s.assume("the first getinfo of a lifetime (BlockWatcher::start) is answered at once with the node's height; later polls are answered by driver steps");
     s.regress::<Scenario, _>("world", case);
-    s.search("world-blockwatcher", "world", tier.pick(600, 10000), c20_strategy, case);
+    s.search("world-blockwatcher", "world", tier.pick(600, 20000), c20_strategy, case);
     s.assume("parallel stress phase: real multi-thread runtime, scheduling not controlled - a violation found there is real, absence is weak evidence");
     s.shrink_iters = 20;
     s.search("parallel-stress", "parallel-stress", tier.pick(8, 200), stress_strategy, stress_case);
